@@ -264,7 +264,7 @@ func runInner(s *Script) (bool, *vt.Finding) {
 	if err != nil {
 		return false, vt.Failf("harness/new", "NewExporter: %v", err)
 	}
-	if err := exp.Start(context.Background(), host); err != nil {
+	if err := xh.StartThenCancel(exp, host); err != nil {
 		return false, vt.Failf("harness/start", "Start: %v", err)
 	}
 	// requests, one after the other
